@@ -4,7 +4,9 @@ import CallbagModel.Inv.ConcatFull
 import CallbagModel.Inv.FlattenFull
 import CallbagModel.Inv.ForEachFull
 import CallbagModel.Inv.FromIterFull
+import CallbagModel.Inv.MergeFull
 import CallbagModel.Inv.RelayFull
+import CallbagModel.Inv.ShareFull
 import CallbagModel.Inv.TakeFull
 /-!
 # C04 — no orphaned or doubly-terminated upstream: operators are conformant sinks: property theorems (statements only; the invariants are in `Inv/*Full.lean`)
@@ -53,6 +55,15 @@ theorem C04_flatten {α : Type} :
     ∀ s, SReach (Flatten.machine α) s → SafeFor 4 s :=
   fun s hs => (FlattenFull.flatten_safe s hs).safeFor 4
 
+theorem C04_merge {α : Type} (n : Nat) :
+    ∀ s, SReach (Merge.machine α n) s → SafeFor 4 s :=
+  fun s hs => (MergeFull.merge_safe n s hs).safeFor 4
+
+/-- `share`: proved for environments in which the source does not deliver from inside one of share's own deliveries
+(`noNestedFanout`, the restriction C12 makes in its own quantifier). -/
+theorem C04_share_partial {α : Type} :
+    ∀ s, SReachR (Share.machine α) noNestedFanout s → SafeFor 4 s :=
+  fun s hs => (ShareFull.share_safe_partial s hs).safeFor 4
 /-- `combine!`: the full statement is FALSE (known findings KF2, KF3: the sink's Pull / Terminate / Error are also sent to members that
 have ended, and a Pull broadcast continues after a nested disposal; witnesses in `Thm/Counterexamples.lean`). What is proved: those
 messages to non-live members are the ONLY phase-level violations — every member is subscribed exactly once and never after the output
